@@ -496,7 +496,7 @@ Definition toc := list (tag * rsec).
 
 (** the loop of readTOCSections over tagged sections; [wanted] = the tags argument (empty = all).
     Unknown tags and kind mismatches are skipped; an unknown kind is an error.  Each round consumes >= 1 byte and
-    the offset is bounded by the end of the TOC section, so fuel = that bound. *)
+    the offset is bounded by the end of the TOC section and by the end of the mapping (see read_toc for the fuel). *)
 Fixpoint read_tagged (f : ifile) (fuel : nat) (off tocend : N) (wanted : list tag) (acc : toc) : outcome toc :=
   if tocend <=? off then Ok acc else
   match fuel with
@@ -516,7 +516,10 @@ Fixpoint read_tagged (f : ifile) (fuel : nat) (off tocend : N) (wanted : list ta
 Definition read_toc (f : ifile) (wanted : list tag) : outcome toc :=
   do h <- read_simple f ((f_size f + W32 - 8) mod W32); let '(toff, tsz, _) := h in
   do c <- read_u32 f toff; let '(count, off) := c in
-  if count =? 0 then read_tagged f (N.to_nat ((toff + tsz) mod W32)) off ((toff + tsz) mod W32) wanted []
+  (* fuel: a round that does not fail consumes >= 1 byte below both the end of the TOC section and the end of the
+     mapping (IndexFile.Read fails beyond it), so min(tocend, len) + 1 rounds suffice.  (Not N.to_nat tocend: a
+     corrupt trailer makes tocend any 32-bit number, and a unary fuel of 2^32 cannot be evaluated.) *)
+  if count =? 0 then read_tagged f (S (N.to_nat (N.min ((toff + tsz) mod W32) (f_len f mod W32)))) off ((toff + tsz) mod W32) wanted []
   else Err E_FORMAT.
 
 Definition toc_simple (t : toc) (name : list N) : N * N :=
